@@ -111,7 +111,11 @@ func init() {
 			jobs = append(jobs, concJob("reload‖Set;expire/"+ex, expr, []string{"set 1", "adv 50"}, [][]string{{"load 1 val"}, {"set 1", "adv 100"}}, or, "native", pb, false, 8, budget, "writes-during-flight"))
 			// a manual Refresh of a fresh entry overtaken by InvalidateAll
 			jobs = append(jobs, concJob("Refresh‖InvalidateAll/"+ex, ref, []string{"set 1"}, [][]string{{"refresh 1 val"}, {"invall"}}, or, "native", pb, false, 8, budget, "writes-during-flight"))
-			jobs = append(jobs, concJob("BulkRefresh‖InvalidateAll/"+ex, ref, []string{"set 1", "set 2"}, [][]string{{"bulkrefresh 1,2 full"}, {"invall"}}, or, "native", pb, false, 8, budget, "writes-during-flight"))
+			bpb := pb
+			if ex == "default" {
+				bpb = pb - 1 // two keys, spawned maintenance: 2.7 M schedules at pb 2; the one-preemption window is what matters
+			}
+			jobs = append(jobs, concJob("BulkRefresh‖InvalidateAll/"+ex, ref, []string{"set 1", "set 2"}, [][]string{{"bulkrefresh 1,2 full"}, {"invall"}}, or, "native", bpb, false, 8, budget, "writes-during-flight"))
 			jobs = append(jobs, concJob("missLoad‖Set;Invalidate/"+ex, plain, nil, [][]string{{"load 1 val"}, {"set 1", "inv 1"}}, or, "native", pb, false, 8, budget))
 		}
 		return jobs
